@@ -1,3 +1,3 @@
 From Coq Require Extraction ExtrOcamlBasic.
 From V Require Import Model.MiniGo Model.ErrWrap.
-Extraction "c03model.ml" case_prog lower_closure eval err_root.
+Extraction "c03model.ml" case_prog lower_closure quest_prelude quest_value opctx_prog eval err_root.
